@@ -12,6 +12,7 @@ import content
 import gtirb_from_repo
 import irgen
 import protocheck
+from common import exc_name
 
 LEVEL = "proof"
 TRUSTED = ("the protobuf runtime's wire codec, range checks and presence rules (messages are compared after parsing with classes built from /repo/proto)",)
@@ -46,6 +47,7 @@ def run(ctx):
         ir, auxinfo = irgen.gen_ir(g, ctx.rng, cov)
         bs = protocheck.writer_stream(ctx, g, batch, ir, auxinfo, "W%d" % i)
         ctx.case(repr(bs), bs is not None and len(bs) > 60)
+    enum_by_name_oracle(ctx, g)
     for tag, m in enum_sweep_messages(enums):
         r = protocheck.reader_stream(ctx, g, batch, m, tag)
         ctx.case(tag, True)
@@ -65,6 +67,108 @@ def run(ctx):
                        "all-false, non-ASCII names, unknown attribute numbers, every enum constant by random choice, AuxData with node references); R: one message per declared enum "
                        "constant plus %d random schema-valid closed messages built directly from the descriptors; non-trivial = at least one module" % (nw, nr))
     ctx.sample({"writer_tag": "W0", "reader_first": "enum sweep then random messages"})
+
+
+def enum_by_name_oracle(ctx, g):
+    """Each direction on its own against the schema's NAME -> number table (descriptors built from /repo/proto): a module / section /
+    block / edge / expression carrying the member named N is WRITTEN with the number the schema gives the constant N is named
+    after, and a foreign message carrying that number is READ as the member named N.  (Comparing with member.value would agree with
+    itself; two members with exchanged numbers still round-trip.)"""
+    import io
+    pool = gtirb_from_repo.pool()
+    sch = {}
+    for fname in ("CFG", "CodeBlock", "Module", "Section", "SymbolicExpression"):
+        for name, ed in pool.FindFileByName(fname + ".proto").enum_types_by_name.items():
+            sch[name] = {v.name: v.number for v in ed.values}
+
+    def schema_number(ename, pyname):
+        tbl = sch[ename]
+        hits = [n for sn, n in tbl.items() if sn == pyname or sn.endswith("_" + pyname) or sn == pyname + "Endian"]
+        return hits[0] if len(set(hits)) == 1 else None
+    IRm = gtirb_from_repo.msg("IR")
+
+    def build(isa=None, ff=None, bo=None, flag=None, dm=None, et=None, attr=None):
+        ir = g.IR()
+        kw = {}
+        if isa is not None:
+            kw["isa"] = isa
+        if ff is not None:
+            kw["file_format"] = ff
+        if bo is not None:
+            kw["byte_order"] = bo
+        m = g.Module(name="m", ir=ir, **kw)
+        s = g.Section(name="s", module=m, flags=({flag} if flag is not None else set()))
+        bi = g.ByteInterval(size=8, section=s)
+        cb = g.CodeBlock(size=1, byte_interval=bi, **({"decode_mode": dm} if dm is not None else {}))
+        y = g.Symbol("y", module=m)
+        if attr is not None:
+            bi.symbolic_expressions[0] = g.SymAddrConst(0, y, {attr})
+        if et is not None:
+            ir.cfg.add(g.Edge(cb, cb, g.Edge.Label(et)))
+        return ir
+    sites = [
+        ("ISA", g.Module.ISA, "isa", lambda p: p.modules[0].isa, lambda ir: next(iter(ir.modules)).isa),
+        ("FileFormat", g.Module.FileFormat, "ff", lambda p: p.modules[0].file_format, lambda ir: next(iter(ir.modules)).file_format),
+        ("ByteOrder", g.Module.ByteOrder, "bo", lambda p: p.modules[0].byte_order, lambda ir: next(iter(ir.modules)).byte_order),
+        ("SectionFlag", g.Section.Flag, "flag", lambda p: list(p.modules[0].sections[0].section_flags)[0],
+         lambda ir: next(iter(next(iter(next(iter(ir.modules)).sections)).flags))),
+        ("DecodeMode", g.CodeBlock.DecodeMode, "dm", lambda p: p.modules[0].sections[0].byte_intervals[0].blocks[0].code.decode_mode,
+         lambda ir: next(iter(ir.code_blocks)).decode_mode),
+        ("EdgeType", g.Edge.Type, "et", lambda p: p.cfg.edges[0].label.type, lambda ir: next(iter(ir.cfg)).label.type),
+        ("SymAttribute", g.SymbolicExpression.Attribute, "attr",
+         lambda p: list(p.modules[0].sections[0].byte_intervals[0].symbolic_expressions[0].attribute_flags)[0],
+         lambda ir: next(iter(next(iter(ir.byte_intervals)).symbolic_expressions[0].attributes))),
+    ]
+    for ename, cls, kwname, read_field, read_attr in sites:
+        for pyname, member in cls.__members__.items():
+            want = schema_number(ename, pyname)
+            ctx.case("enum-by-name:%s.%s" % (ename, pyname), True)
+            ctx.count("enum_members_by_name")
+            if want is None:
+                ctx.add("oracle", "enum-name:unmatched", "%s.%s is named after no (or several) constants of the schema enum %s" % (cls.__name__, pyname, ename),
+                        {"enum": ename, "member": pyname})
+                continue
+            try:
+                ir = build(**{kwname: member})
+                bs = protocheck.save_bytes(ir)
+                p = IRm()
+                p.ParseFromString(bs[8:])
+                got = read_field(p)
+            except Exception as e:  # noqa: BLE001
+                ctx.add("oracle", "enum-name:writer", "saving an IR that uses %s.%s raised %s" % (cls.__name__, pyname, exc_name(g, e)), {"enum": ename, "member": pyname})
+                continue
+            if got != want:
+                ctx.add("oracle", "enum-name:writer", "%s.%s is written as %d; the schema constant it is named after has number %d" % (cls.__name__, pyname, got, want),
+                        {"enum": ename, "member": pyname, "file": bs.hex(), "written": got, "schema": want})
+            # reader: the same message with the schema's number for that name (built at message level)
+            try:
+                if kwname == "isa":
+                    p.modules[0].isa = want
+                elif kwname == "ff":
+                    p.modules[0].file_format = want
+                elif kwname == "bo":
+                    p.modules[0].byte_order = want
+                elif kwname == "flag":
+                    del p.modules[0].sections[0].section_flags[:]
+                    p.modules[0].sections[0].section_flags.append(want)
+                elif kwname == "dm":
+                    p.modules[0].sections[0].byte_intervals[0].blocks[0].code.decode_mode = want
+                elif kwname == "et":
+                    p.cfg.edges[0].label.type = want
+                else:
+                    se = p.modules[0].sections[0].byte_intervals[0].symbolic_expressions[0]
+                    del se.attribute_flags[:]
+                    se.attribute_flags.append(want)
+                f = bs[:8] + p.SerializeToString()
+                ir2 = g.IR.load_protobuf_file(io.BytesIO(f))
+                back = read_attr(ir2)
+            except Exception as e:  # noqa: BLE001
+                ctx.add("oracle", "enum-name:reader", "a message carrying the schema number %d of %s (%s) is not loaded: %s" % (want, ename, pyname, exc_name(g, e)),
+                        {"enum": ename, "member": pyname})
+                continue
+            if getattr(back, "name", None) not in (pyname,) and back is not member:
+                ctx.add("oracle", "enum-name:reader", "schema number %d of enum %s is read as %r; the constant with that number is the one %s.%s is named after"
+                        % (want, ename, back, cls.__name__, pyname), {"enum": ename, "member": pyname, "file": f.hex()})
 
 
 def replay(ctx, path):
